@@ -67,11 +67,11 @@ inductive Value
 | set (s : List Bytes)                     -- duplicate-free; order irrelevant (a Go map)
 | hash (h : List (Bytes × Bytes))          -- fields unique; order irrelevant
 | zset (z : ZT.T)                          -- the AVL tree of memdb/btree.go itself (Ds/ZTree): shape and stored heights are part of the state
-| stream (s : List StreamEntry)            -- oldest first
+| stream (s : List StreamEntry) (last : StreamId)   -- oldest first; `last` = the greatest ID ever appended (survives trimming)
 deriving DecidableEq
 
 def Value.typeName : Value → String
-| .str _ => "string" | .list _ => "list" | .set _ => "set" | .hash _ => "hash" | .zset _ => "zset" | .stream _ => "stream"
+| .str _ => "string" | .list _ => "list" | .set _ => "set" | .hash _ => "hash" | .zset _ => "zset" | .stream _ _ => "stream"
 
 structure Entry where
   val : Value
